@@ -944,6 +944,45 @@ def rule_doclabel(ctx, rep, rid="R-C05-doclabel"):
         rep.error(rid, "no function of ironplcc builds an lsp_types::Diagnostic")
 
 
+def rule_signspan(ctx, rep, rid="R-C05-signspan"):
+    """A number written with a sign is the sign and the digits.  The grammar action that builds a signed number from a sign token and a
+    digits token must give it a span that starts at the sign: the span operand of the constructor comes from SourceSpan::join/join2 (or
+    `range`) fed by the sign token's span, not from the digits token alone - otherwise "Expected smaller value" underlines `1` of `-1`."""
+    r = rep.rule(rid, "a signed number built from a sign token and a digits token gets a span that covers both (the constructor's span comes from a join that reads the sign token's span)",
+                 floor=1, floor_what="grammar actions that build a number from a sign and digits")
+    GRAM = "ironplc_parser::parser::plc_parser::__parse_"
+    g = ctx.peg
+    n = 0
+    for rule, sq in g.all_seqs():
+        if sq.action is None:
+            continue
+        toks = [(e.label, g.terminal(e.prim)) for e in sq.elems if g.terminal(e.prim) and g.terminal(e.prim)[0] == "tok" and not e.look]
+        signs = [t for t in toks if t[1][1] in ("Minus", "Plus") and True]
+        digits = [t for t in toks if t[1][1] in ("Digits",)]
+        mandatory_sign = [e for e in sq.elems if g.terminal(e.prim) and g.terminal(e.prim)[0] == "tok" and g.terminal(e.prim)[1] == "Minus" and not e.rep and not e.look]
+        if not mandatory_sign or not digits or len(toks) != 2:
+            continue
+        # the action closure(s) of this rule
+        for b in ctx.prog.bodies.values():
+            if not norm(b.id).startswith(GRAM + rule.name + "::{closure") or b.f.get("parent") is None:
+                continue
+            for c in b.calls():
+                if not (c.callee or "").endswith("SignedInteger::new") or len(c.args) < 2:
+                    continue
+                n += 1
+                p = op_place(c.args[1])
+                d = b.single_def(b.root(p)[0]) if p is not None else None
+                inst = "rule %s|SignedInteger::new span" % rule.name
+                where = "parser/src/parser.rs:%d" % sq.line
+                joined = bool(d and d[0] == "call" and (d[2].callee or "").split("::")[-1] in ("join", "join2", "range"))
+                if joined:
+                    r.ok(inst, where, "joined from the sign and the digits")
+                else:
+                    r.finding(inst + "|digits-only", where, "the number is built from `-` and digits but its span is the digits' alone: a label on it leaves out the sign")
+    if not n:
+        rep.error(rid, "no grammar action builds a SignedInteger from a mandatory sign token and a digits token")
+
+
 def panics_int(b, op):
     from rules import panics
     return panics._int_const(b, op)
@@ -1266,6 +1305,7 @@ def run(ctx, rep):
     rule_display(ctx, rep)
     rule_synth(ctx, rep)
     rule_doclabel(ctx, rep)
+    rule_signspan(ctx, rep)
     from rules.c15 import rule_verbatim
     rule_verbatim(ctx, rep, rid="R-C05-verbatim")
     from rules import c05_blank, c05_joinorder
